@@ -2,6 +2,7 @@ import TexcraftModel.Lemmas.C06
 import TexcraftModel.Lemmas.C06Print
 import TexcraftModel.Lemmas.C06Scan
 import TexcraftModel.Lemmas.C06Glue
+import TexcraftModel.Model.C06Text
 
 /-!
 # C06 — property theorems
@@ -130,6 +131,31 @@ theorem scan_int_eq (radix : Int) (hr : radix = 10 ∨ radix = 8 ∨ radix = 16)
   · simp [Spec.fits]; omega
   · have : wrap32 (-v) = -v := by unfold wrap32; omega
     simp [Spec.fits, this]; omega
+
+/-- Which characters are digits of a constant, hence where it ends: `parse_constant`'s decoding =
+TeX §445 for every character, both categories (letter / other) and each radix. In particular the
+lower-case `a`–`f` are never digits, `8` and `9` are not octal digits, and upper-case `A`–`F`
+are hexadecimal digits with either category. -/
+theorem const_digit_eq (radix : Int) (hr : radix = 10 ∨ radix = 8 ∨ radix = 16) (c : Char) (letter : Bool) :
+    constDigit radix c letter = Spec.constDigit radix c letter := by
+  unfold constDigit Spec.constDigit
+  generalize c.toNat = n
+  rcases hr with rfl | rfl | rfl <;> cases letter <;> simp <;> (repeat' split) <;>
+    first | rfl | omega | (simp; omega)
+
+example : constDigit 16 'f' true = none ∧ constDigit 16 'F' true = some 15 ∧ constDigit 16 'F' false = some 15 ∧
+    constDigit 8 '8' false = none ∧ constDigit 10 'A' false = none := by decide
+/-- C06-i at its witness: `1 .5pt` — the space ends the number, there is no fraction (the unfixed
+code, `fracAfterSpace = true`, read 1.5pt). -/
+example : (Text.parseDimen constDigit false false
+      [.ch '1' false, .space, .ch '.' false, .ch '5' false, .ch 'p' true, .ch 't' true]).head = .const 10 [1] none ∧
+    (Text.parseDimen constDigit false true
+      [.ch '1' false, .space, .ch '.' false, .ch '5' false, .ch 'p' true, .ch 't' true]).head = .const 10 [1] (some [5]) := by
+  decide
+
+/-- `"10bp` is sixteen big points: the `b` ends the constant. -/
+example : (Text.parseDimen constDigit false true
+    [.ch '"' false, .ch '1' false, .ch '0' false, .ch 'b' true, .ch 'p' true]).head = .const 16 [1, 0] none := by decide
 
 /-- After an overflow the value is clamped to `2^31-1` (§445 `cur_val:=infinity`), never wrapped;
 without overflow it is in `[0, 2^31-1]`. -/
